@@ -8,7 +8,13 @@ from the status the fake server answers with (stream_fails gen_stream_read).
 
 Tie (schedule replay): the REAL HttpFetcherThread / http_queue_strategy / http_thread_executor_strategy / HttpRangeStream run in
 this process against instrumented doubles patched into the `laspy.copc` namespace only: queue.Queue / SimpleQueue doubles, a
-fake `requests` session under the real HttpRangeStream (subclassed to make `seek` observable), a ThreadPoolExecutor subclass.
+ThreadPoolExecutor subclass, HttpRangeStream subclassed to make `seek` observable.  The HTTP double sits UNDER laspy's own
+transport code: requests_retry_session, requests.Session, the adapter it mounts and urllib3's pool / Retry run as they are; the
+CONNECTION the pool hands out is replaced (NetConnection: one request()/getresponse() = one attempt, answered by the World of the
+run: a status + body, connection refused, dropped, body cut), HTTPConnectionPool.urlopen is wrapped to see where a request begins
+and how it ends below the adapter, Retry.sleep does not sleep.  (Four in five of the schedules enumerated from the model graph
+run on a double of the session instead - those runs are about the interleaving; every other run is on the real stack.)
+The attempts of every request and how it ended are compared with the model of the session's retry policy (send_cfg gen_retry).
 Every queue operation (INCLUDING the main thread's query_queue.put calls), every thread start of the queue strategy, request
 completion, seek (executor), future.result() and the pool shutdown hands control to a controller that lets exactly one thread
 move at a time, following a schedule (list of thread ids).  A failing request is an answer of the fake server with any 4xx / 5xx
@@ -28,13 +34,28 @@ that moment is a failing input ("worker thread still at work / range request iss
 C16_queue_steps_only_exits_after_done, C16_exec_nothing_after_done, compared per trace (quiet=).  A fail-fast schedule (a failed
 request answered before every other request in flight, main running whenever it can) is among the adversarial ones.
 
+Histories (what SURVIVES a query): long sequences of calls in ONE fresh interpreter each - both strategies, direct reads, CopcReader
+queries, one source kept or a new one per call - most of whose range requests fail below the session (refused / dropped / retries
+exhausted on 500, 502, 504 / cut bodies / error statuses; > 32 failures by an exception of the adapter's send in every quick
+history, > 256 in one, > 4096 thorough), each call judged, followed by calls on a healthy server that must return the local read and
+leave no thread behind; also: many failing one-range calls, many healthy calls, requests without a Range header failing.  Model:
+gen_transport_kept = TkNothing (C16_history_transport_keeps_nothing; the leaky slot pool is C16_history_leaked_slots_refuted), each
+call replayed in the model as a run of its own.  An input found in the long-lived check process is re-run alone in a fresh
+interpreter; when it does not show there it is reported as depending on the runs before it.
+
 Sessions: successive calls of a strategy on one source, and successive queries on ONE CopcReader over the fake http source
 (levels / boxes growing and shrinking, so that byte ranges start at the same offset with different lengths; repeats; unrelated
 ones), persistent and transient faults: each must equal the local answer for ITS ranges.  Model: reader_session gen_fetch_site
 (what the reader keeps between queries - nothing), compared on the compressed bytes each query hands to the LAZ backend.
 """
+import http.client
 import io
+import json
+import os
+import random
 import struct
+import subprocess
+import sys
 import threading
 import time
 from collections import deque
@@ -42,15 +63,33 @@ from queue import Empty
 
 from harness import common
 
+try:                                  # the HTTP stack laspy uses; the double sits UNDER it (at the connection)
+    import requests as _requests
+    from urllib3.connection import HTTPConnection as _HTTPConnection
+    from urllib3.connectionpool import HTTPConnectionPool as _Pool
+    from urllib3.exceptions import NewConnectionError as _NewConnectionError
+    from urllib3.response import HTTPResponse as _HTTPResponse
+    from urllib3.util.retry import Retry as _Retry
+    HAVE_STACK = True
+except Exception:  # noqa
+    HAVE_STACK = False
+
 DRIVER = "c16"
 ASSUMPTIONS = [
     "stdlib semantics assumed, not verified: queue.Queue (FIFO, unfinished_tasks/join/task_done), queue.SimpleQueue, "
     "threading.Thread, concurrent.futures.ThreadPoolExecutor (FIFO work queue, Future.result(), shutdown(wait=True) on leaving "
     "the with block); they are replaced by instrumented doubles with exactly these semantics during replay",
-    "the HTTP server answers a range request with exactly the requested bytes (status 206), with a client/server error status "
-    "400..599 and any body, or not at all (the session raises); requests.Response.raise_for_status raises exactly for 400..599; "
-    "requests' retry adapter, sockets and success answers with a body of the wrong length are outside the model; at least one "
-    "worker (http_num_threads >= 1)",
+    "the HTTP server answers an ATTEMPT of a range request with exactly the requested bytes (status 206), with a client/server error "
+    "status 400..599 and any body, by refusing the connection, by dropping it before any response, or by breaking it while the body is "
+    "read; requests / urllib3 are run, not verified: requests.Response.raise_for_status raises exactly for 400..599, "
+    "urllib3.util.Retry(total, connect, read, status_forcelist) as modelled by send_retry (compared per request: attempts made, how it "
+    "ended); no Retry-After header, no redirect; the back-off sleeps between attempts are skipped (Retry.sleep patched); sockets, TLS, "
+    "time-outs (laspy sets none) and success answers with a complete body of the wrong length are outside the model; at least one worker "
+    "(http_num_threads >= 1)",
+    "what outlives a call is exercised by histories of up to a few hundred (quick) / a few thousand (thorough) calls in a fresh "
+    "interpreter: state that needs a longer history, or another process-wide resource than threads / the objects reachable from "
+    "laspy.copc, requests and urllib3, to show is covered by the translator's fail-closed reading of requests_retry_session / "
+    "HttpRangeStream only (gen_transport_kept)",
     "byte ranges handed to the strategies have strictly increasing offsets (what CopcReader builds from distinct nodes); "
     "for unsorted ranges the queue strategy returns the blocks in offset order (proved and compared, not required by the oracle)",
     "the OS scheduler is abstracted to: any interleaving of the threads at queue operations (main's puts included), thread "
@@ -79,11 +118,28 @@ class FakeHTTPError(Exception):
         self.status = status
 
 
-# what a failing request is answered with: (status, body kind); status -1 = no answer, session.get raises
+# what a failing request is answered with: (status, body kind) - EVERY attempt of the request - or (status, body kind, k) - its
+# first k attempts only, then the server is healthy.  status < 0: no response: -1 = the connection is dropped before any response
+# (a read error, retried by the adapter), -2 = it is refused (a connect error, retried), -4 = the response head arrives (206) and
+# the connection breaks while the body is read (never retried).  Whether the REQUEST fails is up to laspy's session (its Retry
+# configuration): 500 / 502 / 504 and -1 / -2 are retried, so a fault of k <= 3 attempts is masked
 STATUSES = [416, 500, 404, 403, 503, 400, 429, 502, 401, 504, 408, 410, 599]
 BODIES = ["empty", "short", "exact", "long"]
 FAULTS = [(st, BODIES[(i + k) % 4]) for k in range(4) for i, st in enumerate(STATUSES)]
 FAULTS.insert(5, (-1, "none"))
+FAULTS.insert(11, (-2, "none"))
+FAULTS.insert(17, (-4, "none"))
+TRANSIENT = [(502, "empty", 2), (-1, "none", 3), (500, "short", 1), (-2, "none", 2), (504, "exact", 3), (404, "empty", 1),
+             (-1, "none", 4), (502, "long", 5), (-4, "none", 1), (-2, "none", 1)]
+if HAVE_STACK:
+    for _k, _f in enumerate(TRANSIENT):
+        FAULTS.insert(3 + 6 * _k, _f)
+RAISING = [(-1, "none"), (-2, "none"), (502, "empty"), (500, "short"), (504, "exact")]     # the adapter's send raises
+NONRANGE = (-1, 0)               # stands for a request without a Range header (none is made by the unchanged source)
+
+
+def persistent(fault):
+    return len(fault) < 3
 
 
 class FaultCycle:
@@ -255,7 +311,7 @@ class Controller:
         return enabled[0]
 
     def drive(self):
-        deadline = time.time() + 60
+        deadline = time.time() + RUN_LIMIT
         while True:
             t_end = time.time() + WAIT
             while True:
@@ -277,7 +333,7 @@ class Controller:
                     self.problem = ("deadlock", [(i.tid, i.label) for i in parked])
                     return
                 if time.time() > deadline:
-                    self.problem = ("hang", [("run exceeded 60 s", "", "")])
+                    self.problem = ("hang", [(f"run exceeded {RUN_LIMIT:.0f} s", "", "")])
                     return
                 info = self.choose(enabled)
                 self.window += 1
@@ -336,6 +392,10 @@ def _patched_start(self):
         if ctl.mode == "queue":
             ctl.point("start")                 # ... and before each thread start
         ctl.register(self)
+        try:
+            self.daemon = True                 # a thread blocked for ever inside the code under test must not keep the check from exiting
+        except RuntimeError:
+            pass
     return _ORIG_START(self)
 
 
@@ -473,22 +533,276 @@ class FakeSession:
 
 
 class World:
-    """the server: the file, and what it answers the requests of the failing ranges with"""
+    """the server: the file, and what it answers the requests of the failing ranges with.  stack = 'real': laspy's own
+    requests_retry_session / requests / urllib3 run, the double is the CONNECTION (NetConnection below) and a fault is decided per
+    attempt; stack = 'double': requests_retry_session is replaced by FakeSession (no requests installed)"""
 
-    def __init__(self, file, faults=None, by_start=False, once=False):
+    def __init__(self, file, faults=None, by_start=False, once=False, stack=None, nonrange=None):
         self.file = bytes(file)
-        self.faults = dict(faults or {})       # (start, n) -> (status, body kind)   [by_start: start -> ...]
+        self.faults = dict(faults or {})       # (start, n) -> (status, body kind[, attempts])   [by_start: start -> ...]
         self.by_start = by_start
-        self.once = once                       # a fault hits the first request it applies to only (a transient error)
+        self.once = once                       # a fault hits the first attempt it applies to only (a transient error)
+        self.nonrange = nonrange               # the fault for requests without a Range header (HEAD, plain GET), if any are made
+        self.stack = stack or ("real" if HAVE_STACK else "double")
+        self.lock = threading.Lock()
         self.requests = []
         self.request_tids = []                 # which controlled thread made the request (None: not a controlled thread)
-        self.failed = []                       # the requests that were answered with an error / not answered
+        self.failed = []                       # the requests that ended in an error answer / an exception below laspy's session
+        self.attempts = []                     # per request: [range, [answer of each attempt], how it ended]
+        self.others = 0                        # requests without a Range header
 
-    def fault_for(self, start, n):
+    def fault_for(self, start, n, attempt=0):
+        if start < 0:
+            return self.nonrange
         key = start if self.by_start else (start, n)
         if self.once:
             return self.faults.pop(key, None)
-        return self.faults.get(key)
+        f = self.faults.get(key)
+        if f is not None and len(f) >= 3 and attempt >= f[2]:
+            return None
+        return f
+
+    # ---- called by the transport double (stack = 'real')
+    def begin(self, method, rng):
+        """a request enters the connection pool (below laspy's adapter)"""
+        ctl = CURRENT
+        if rng is None:
+            rng = NONRANGE
+        elif ctl is not None and not ctl.seek_yields:
+            ctl.point("fetch", extra=rng)              # queue strategy: the request completes when the controller says so
+        me = ctl.me() if ctl is not None else None
+        with self.lock:
+            rec = [rng, [], None]
+            self.requests.append(rng)
+            self.request_tids.append(None if me is None else me.tid)
+            self.attempts.append(rec)
+            if rng == NONRANGE:
+                self.others += 1
+        return rec
+
+    def attempt(self, rec):
+        rng = rec[0]
+        with self.lock:
+            fault = self.fault_for(rng[0], rng[1], len(rec[1]))
+            if fault is None and rng != NONRANGE and (rng[0] >= len(self.file) or rng[1] <= 0):
+                fault = (416, "empty")                  # what a server answers for a range outside the resource
+            rec[1].append(206 if fault is None else fault[0])
+        return fault
+
+    def end(self, rec, how):
+        """how: the status of the response handed to laspy's session, or 'raised' (the adapter's send raises), or 'cut'"""
+        with self.lock:
+            if how == "cut":
+                rec[2] = "cut"
+                self.failed.append(rec[0])
+            elif rec[2] is None:
+                rec[2] = how
+                if how == "raised" or (isinstance(how, int) and 400 <= how < 600):
+                    self.failed.append(rec[0])
+
+
+# ------------------------------------------------------------------------------------------------ the transport double
+# laspy's requests_retry_session, requests.Session, its adapter(s) and urllib3's connection pool / Retry run as they are; what is
+# replaced is the CONNECTION the pool hands out (HTTPConnectionPool.ConnectionCls): it asks the World of the run what the server
+# does with THIS attempt.  HTTPConnectionPool.urlopen is wrapped (not replaced) to see where a request begins and how it ends
+# below the adapter, and Retry.sleep does not sleep (the back-off between attempts is not waited for).
+_TL = threading.local()
+
+
+def _range_of_headers(headers):
+    try:
+        v = headers.get("Range") if headers is not None else None
+    except Exception:  # noqa
+        v = None
+    if not v or not str(v).startswith("bytes="):
+        return None
+    a, _, b = str(v)[6:].partition("-")
+    try:
+        return (int(a), int(b) - int(a) + 1)
+    except ValueError:
+        return None
+
+
+class _BrokenBody(io.RawIOBase):
+    """a response body that breaks after its first bytes"""
+
+    def __init__(self, data, rng):
+        self.data, self.rng, self.sent = data, rng, False
+
+    def readable(self):
+        return True
+
+    def readinto(self, b):
+        if not self.sent and self.data:
+            self.sent = True
+            n = min(len(b), len(self.data))
+            b[:n] = self.data[:n]
+            return n
+        ex = ConnectionResetError(104, "Connection reset by peer")
+        ex.c16_range = self.rng
+        raise ex
+
+
+if HAVE_STACK:
+    class _NetSock:
+        def close(self):
+            pass
+
+        def settimeout(self, t):
+            pass
+
+    class NetConnection(_HTTPConnection):
+        """the connection the pool hands out: no socket; request() + getresponse() = one ATTEMPT answered by the World"""
+
+        def connect(self):
+            self.sock = _NetSock()
+
+        @property
+        def is_closed(self):
+            return self.sock is None
+
+        @property
+        def is_connected(self):
+            return self.sock is not None
+
+        def close(self):
+            self.sock = None
+
+        def request(self, method, url, body=None, headers=None, **kw):
+            world = getattr(_TL, "world", None) or NET
+            rec = getattr(_TL, "rec", None)
+            self._c16 = None
+            if world is None:
+                raise _NewConnectionError(self, "c16 harness: no server outside a controlled run")
+            own = rec is None
+            if own:                                # a request that did not come through HTTPConnectionPool.urlopen
+                rec = world.begin(method, _range_of_headers(headers))
+            fault = world.attempt(rec)
+            self._c16 = (world, rec, fault, method, url, own)
+            if fault is not None and fault[0] == -2:
+                self.sock = None
+                if own:
+                    world.end(rec, "raised")
+                ex = _NewConnectionError(self, "Failed to establish a new connection: [Errno 111] Connection refused")
+                ex.c16_range = rec[0]
+                raise ex
+            if self.sock is None:
+                self.connect()
+
+        def getresponse(self):
+            world, rec, fault, method, url, own = self._c16
+            rng = rec[0]
+            if fault is not None and fault[0] == -1:
+                self.close()
+                if own:
+                    world.end(rec, "raised")
+                ex = http.client.RemoteDisconnected("Remote end closed connection without response")
+                ex.c16_range = rng
+                raise ex
+            if fault is None or fault[0] == -4:
+                data = world.file if rng == NONRANGE else bytes(world.file[rng[0]:rng[0] + rng[1]])
+                status = 200 if rng == NONRANGE else 206
+            else:
+                data, status = error_body(fault[1], max(rng[1], 0)), fault[0]
+            hdrs = {"Content-Length": str(len(data)), "Accept-Ranges": "bytes"}
+            if method == "HEAD":
+                fp = io.BytesIO(b"")
+            elif fault is not None and fault[0] == -4:
+                hdrs["Content-Length"] = str(len(data) + 1)
+                fp = io.BufferedReader(_BrokenBody(data[:len(data) // 2], rng))
+                world.end(rec, "cut")
+            else:
+                fp = io.BytesIO(data)
+            if own:
+                world.end(rec, status)
+            return _HTTPResponse(body=fp, headers=hdrs, status=status, version=11, version_string="HTTP/1.1", reason="c16",
+                                 preload_content=False, decode_content=False, request_method=method, request_url=url,
+                                 enforce_content_length=True)
+
+    _REAL_URLOPEN = _Pool.urlopen
+    _REAL_SLEEP = _Retry.sleep
+    _REAL_CONN = _Pool.ConnectionCls
+
+    def _net_urlopen(pool, method, url, *a, **kw):
+        world = NET
+        if world is None or getattr(_TL, "rec", None) is not None:
+            return _REAL_URLOPEN(pool, method, url, *a, **kw)          # an attempt after the first (urlopen calls itself)
+        headers = kw.get("headers", a[1] if len(a) > 1 else None)
+        rec = world.begin(method, _range_of_headers(headers))
+        _TL.rec, _TL.world = rec, world
+        try:
+            resp = _REAL_URLOPEN(pool, method, url, *a, **kw)
+        except Abort:
+            raise
+        except BaseException:
+            world.end(rec, "raised")
+            raise
+        finally:
+            _TL.rec = _TL.world = None
+        world.end(rec, int(resp.status))
+        return resp
+
+    def _no_sleep(self, response=None):
+        return None
+
+
+NET = None           # the World of the run in progress when the real stack is used
+if HAVE_STACK:
+    import requests.utils as _rutils
+    _REAL_GETPROXIES, _REAL_BYPASS = _rutils.getproxies, _rutils.proxy_bypass
+    _NO_PROXY_ENV = not any(k.lower().endswith("_proxy") for k in os.environ)
+
+
+def install_net(world):
+    global NET
+    if not HAVE_STACK or world.stack != "real":
+        NET = None
+        return False
+    NET = world
+    _Pool.ConnectionCls = NetConnection
+    _Pool.urlopen = _net_urlopen
+    _Retry.sleep = _no_sleep
+    if _NO_PROXY_ENV:
+        # no proxy is configured in the environment: requests' two scans of os.environ per request are answered at once
+        _rutils.getproxies = dict
+        _rutils.proxy_bypass = lambda host: False
+    return True
+
+
+def uninstall_net():
+    global NET
+    NET = None
+    if HAVE_STACK:
+        _Pool.ConnectionCls = _REAL_CONN
+        _Pool.urlopen = _REAL_URLOPEN
+        _Retry.sleep = _REAL_SLEEP
+        _rutils.getproxies, _rutils.proxy_bypass = _REAL_GETPROXIES, _REAL_BYPASS
+
+
+def range_of_exc(ex):
+    """the range request an exception raised by the code under test stands for: FakeHTTPError (the session double), a requests
+    exception (its .request / .response.request carries the Range header) or anything chained to one; NONRANGE for a request
+    without a Range header; None: not the error of a request"""
+    seen, todo = set(), [ex]
+    while todo and len(seen) < 40:
+        e = todo.pop(0)
+        if id(e) in seen:
+            continue
+        seen.add(id(e))
+        if isinstance(e, FakeHTTPError):
+            return tuple(e.range)
+        req = getattr(e, "request", None)
+        if req is None:
+            req = getattr(getattr(e, "response", None), "request", None)
+        if req is not None and hasattr(req, "headers"):
+            return _range_of_headers(req.headers) or NONRANGE
+        r = getattr(e, "c16_range", None)
+        if r is not None:
+            return tuple(r)
+        for x in (getattr(e, "__cause__", None), getattr(e, "__context__", None), getattr(e, "reason", None)) + tuple(getattr(e, "args", ()) or ()):
+            if isinstance(x, BaseException):
+                todo.append(x)
+    return None
 
 
 _PATCH_LOCK = threading.Lock()
@@ -578,9 +892,12 @@ class Patched:
         copc.SimpleQueue = CtlSimpleQueue
         copc.HttpRangeStream = InstrStream
         copc.ThreadPoolExecutor = CtlExecutor
-        copc.requests_retry_session = lambda *a, **k: FakeSession(world)
-        if copc.requests is None:
-            copc.requests = object()
+        if copc.requests is None or not install_net(world):
+            # no requests package (or the session double asked for): the double is the session
+            world.stack = "double"
+            copc.requests_retry_session = lambda *a, **k: FakeSession(world)
+            if copc.requests is None:
+                copc.requests = object()
         self.stream_cls = InstrStream
         threading.Thread.start = _patched_start
         self.hook = threading.excepthook
@@ -594,16 +911,19 @@ class Patched:
             out = ("returned", f())
         except Abort:
             raise
-        except FakeHTTPError as ex:
-            out = ("raised", ex.range)
         except Exception as ex:  # noqa
-            out = ("error", common.exc_kind(ex) + ": " + str(ex)[:80])
+            rng = range_of_exc(ex)
+            if rng is not None:
+                out = ("raised", rng)
+            else:
+                out = ("error", common.exc_kind(ex) + ": " + str(ex)[:80])
         self.ctl.boundary(self.world, out[0])
         return out
 
     def __exit__(self, *exc):
         global CURRENT
         CURRENT = None
+        uninstall_net()
         threading.Thread.start = _ORIG_START
         threading.excepthook = self.hook
         for k, v in self.saved.items():
@@ -620,27 +940,69 @@ def calls_of(ctl, world):
     """per observed call: how it ended, the requests made / failed during it, and what the threads IT started still did for a
     range after it had returned or raised (`late`); a thread that only leaves (a last non-blocking take that finds the queue
     empty, closing its stream) is `winding_down`"""
+    bs = ctl.boundaries
+    call_of_tid = {}
+    prev_t = 1
+    for k, b in enumerate(bs):
+        for t in range(prev_t, b["tids"]):
+            call_of_tid[t] = k
+        prev_t = b["tids"]
+    own = [[] for _ in bs]
+    late = [[] for _ in bs]
+    k0 = 0                                                   # the call main is in at trace position k
+    for k, e in enumerate(ctl.trace):
+        while k0 < len(bs) and k >= bs[k0]["trace"]:
+            k0 += 1
+        tid = e[1]
+        if tid == 0:
+            if k0 < len(bs):
+                own[k0].append(e)
+            continue
+        c = call_of_tid.get(tid)
+        if c is None:
+            continue
+        own[c].append(e)
+        if k >= bs[c]["trace"] and e[2] in WORK:
+            late[c].append(f"{tid}.{e[2]}")
+    late_req = [[] for _ in bs]
+    for idx, (r, t) in enumerate(zip(world.requests, world.request_tids)):
+        c = call_of_tid.get(t)
+        if c is not None and idx >= bs[c]["requests"]:
+            late_req[c].append(list(r))
     out = []
     prev = {"trace": 0, "requests": 0, "failed": 0, "tids": 1, "jobs": 0}
-    for b in ctl.boundaries:
+    for k, b in enumerate(bs):
         mine = range(prev["tids"], b["tids"])
-        own = [e for k, e in enumerate(ctl.trace) if e[1] in mine or (e[1] == 0 and prev["trace"] <= k < b["trace"])]
-        late = [f"{tid}.{label}" for (_w, tid, label, _x) in ctl.trace[b["trace"]:] if tid in mine and label in WORK]
-        late_req = [list(r) for r, t in zip(world.requests[b["requests"]:], world.request_tids[b["requests"]:]) if t in mine]
         alive = [a for a in b["alive"] if a[0] in mine]
         out.append({"how": b["how"], "threads": len(mine), "requests": list(world.requests[prev["requests"]:b["requests"]]),
                     "failed": list(world.failed[prev["failed"]:b["failed"]]),
-                    "alive_at_return": [[t, st, lb] for t, st, lb in alive], "late": late, "late_requests": late_req,
-                    "events": render(own, prev["tids"] - 1, prev["jobs"]),
+                    "alive_at_return": [[t, st, lb] for t, st, lb in alive], "late": late[k], "late_requests": late_req[k],
+                    "events": render(own[k], prev["tids"] - 1, prev["jobs"]),
                     "exited": [i.state == "finished" for i in ctl.infos[prev["tids"]:b["tids"]]],
-                    "winding_down": len(alive) if not late and not late_req else 0})
+                    "winding_down": len(alive) if not late[k] and not late_req[k] else 0})
         prev = b
     return out
+
+
+class TooManyHangs(Exception):
+    """threads of earlier runs are blocked inside the code under test, outside every controlled operation: no further run is made
+    in this process (each would wait WAIT seconds for nothing)"""
+
+
+RUNS = 0             # controlled runs made in this process
+HANGS = 0            # runs of this process that ended with a thread blocked outside the controlled operations
+HANG_LIMIT = 2
+RUN_LIMIT = 60.0     # seconds one controlled run may take
+JOIN_LIMIT = 3.0     # seconds the threads of a run are given to finish once it is over / abandoned
 
 
 def controlled_call(mode, world, fn, schedule=None, policy=None, seek_yields=False, session=False):
     """runs fn(patched) in a controlled thread; returns dict(outcome, events, exited, problem, leaked, errors, decisions, calls).
     session: fn makes several observed calls itself (p.observed) and returns the list of their outcomes"""
+    global HANGS, RUNS
+    if HANGS >= HANG_LIMIT:
+        raise TooManyHangs()
+    RUNS += 1
     before = set(threading.enumerate())
     ctl = Controller(mode, schedule, policy, seek_yields)
     res = {}
@@ -655,7 +1017,7 @@ def controlled_call(mode, world, fn, schedule=None, policy=None, seek_yields=Fal
                     res["outcome"] = ("error", common.exc_kind(ex) + ": " + str(ex)[:80])
             else:
                 res["outcome"] = p.observed(lambda: fn(p))
-        t0 = threading.Thread(target=target, name="c16-main")
+        t0 = threading.Thread(target=target, name="c16-main", daemon=True)
         info0 = ctl.register(t0)
         info0.state = "running"
         _ORIG_START(t0)
@@ -664,11 +1026,23 @@ def controlled_call(mode, world, fn, schedule=None, policy=None, seek_yields=Fal
         if ctl.problem is not None:
             blocked = list(ctl.problem[1])
             ctl.abort()
+        t_end = time.time() + JOIN_LIMIT
         for i in ctl.infos:
-            i.thread.join(3.0)
+            i.thread.join(max(0.0, t_end - time.time()))
         started = [i.thread for i in ctl.infos]
     leaked = [t.name for t in threading.enumerate() if t not in before and t.is_alive()]
     leaked_ctl = [i.tid for i in ctl.infos if i.thread.is_alive()]
+    if leaked_ctl:
+        # blocked for good (not at a controlled operation, so it cannot be unwound): make sure the interpreter can still exit
+        try:
+            import concurrent.futures.thread as _cft
+            for i in ctl.infos:
+                if i.thread.is_alive():
+                    _cft._threads_queues.pop(i.thread, None)
+        except Exception:  # noqa
+            pass
+    if ctl.problem is not None and ctl.problem[0] == "hang":
+        HANGS += 1
     return {
         "outcome": res.get("outcome", ("none", None)),
         "events": ctl.events(),
@@ -679,31 +1053,34 @@ def controlled_call(mode, world, fn, schedule=None, policy=None, seek_yields=Fal
         "decisions": list(ctl.decisions),
         "requests": list(world.requests),
         "failed": list(world.failed),
+        "attempts": [list(a) for a in world.attempts],
+        "stack": world.stack,
+        "other_requests": world.others,
         "threads": len(started) - 1,
         "calls": calls_of(ctl, world),
     }
 
 
-def run_queue(file, ranges, workers, faults, schedule=None, policy=None):
-    world = World(file, faults)
+def run_queue(file, ranges, workers, faults, schedule=None, policy=None, stack=None):
+    world = World(file, faults, stack=stack)
 
     def fn(p):
         src = p.stream_cls("http://fake/file.copc.laz")
         out = bytearray(sum(n for _, n in ranges))
         p.copc.http_queue_strategy(src, list(ranges), out, workers)
         return bytes(out)
-    return controlled_call("queue", world, fn, schedule, policy, seek_yields=False)
+    return dict(controlled_call("queue", world, fn, schedule, policy, seek_yields=False), faults=dict(faults or {}))
 
 
-def run_exec(file, ranges, workers, faults, schedule=None, policy=None):
-    world = World(file, faults)
+def run_exec(file, ranges, workers, faults, schedule=None, policy=None, stack=None):
+    world = World(file, faults, stack=stack)
 
     def fn(p):
         src = p.stream_cls("http://fake/file.copc.laz")
         out = bytearray(sum(n for _, n in ranges))
         p.copc.http_thread_executor_strategy(src, list(ranges), out, workers)
         return bytes(out)
-    return controlled_call("exec", world, fn, schedule, policy, seek_yields=True)
+    return dict(controlled_call("exec", world, fn, schedule, policy, seek_yields=True), faults=dict(faults or {}))
 
 
 STRATEGY_FN = {"queue": "http_queue_strategy", "exec": "http_thread_executor_strategy"}
@@ -905,6 +1282,21 @@ def thread_problems(kind0, res):
     return None
 
 
+def must_fail(ranges, failing, res):
+    """the ranges of the call whose request fails: a faulty range that is requested (an empty range makes no request: it cannot
+    fail) - when the fault hits every attempt; when it hits the first attempts only, whether the REQUEST fails is up to the retry
+    policy of laspy's session: the server's own record (how the request ended below the session) decides"""
+    faults = res.get("faults") or {}
+    ended_badly = {tuple(r) for r in res.get("failed", [])}
+    out = []
+    for r in ranges:
+        if r in set(failing) and r[1] > 0:
+            f = faults.get(tuple(r))
+            if f is None or persistent(f) or tuple(r) in ended_badly:
+                out.append(r)
+    return out
+
+
 def oracle(mode, file, ranges, failing, res):
     """None when the property holds on this run, else (kind, observed)"""
     kind0 = f"{mode}-strategy: "
@@ -912,7 +1304,7 @@ def oracle(mode, file, ranges, failing, res):
     if bad is not None:
         return bad
     out = res["outcome"]
-    fails_here = [r for r in ranges if r in set(failing) and r[1] > 0]      # an empty range makes no request: it cannot fail
+    fails_here = must_fail(ranges, failing, res)
     if not fails_here:
         want = local_read(file, ranges)
         if out[0] != "returned":
@@ -949,7 +1341,7 @@ def session_oracle(mode, file, calls, faults, res, once=False):
         nth = f"call #{k + 1} of {len(calls)} with ranges {[list(r) for r in ranges]} (earlier calls: {[[list(r) for r in rs] for rs in calls[:k]]})"
         if not once:
             # persistent faults: every non-empty failing range of this call is requested and fails
-            must = [r for r in ranges if tuple(r) in faults and r[1] > 0]
+            must = [r for r in ranges if tuple(r) in faults and r[1] > 0 and persistent(faults[tuple(r)])]
             if must and out[0] == "returned":
                 return kind0 + "failed request swallowed, data returned", f"{nth}: failing {must} returned {out[1].hex()}"
         if not failed:
@@ -969,7 +1361,14 @@ def session_oracle(mode, file, calls, faults, res, once=False):
 # ------------------------------------------------------------------------------------------------ model side
 def ftok(faults):
     """failing ranges with the status the server answers them with"""
-    return "|".join(f"{o}:{n}:{st}" for (o, n), (st, _) in faults.items()) if faults else "-"
+    return "|".join(f"{o}:{n}:{atok(f)}" for (o, n), f in faults.items()) if faults else "-"
+
+
+def atok(fault):
+    """the answers of the successive attempts of a request under this fault (the last one is repeated for ever)"""
+    if persistent(fault):
+        return str(fault[0])
+    return "/".join([str(fault[0])] * fault[2] + ["206"])
 
 
 def model_line(mode, shape, file, ranges, workers, faults, events):
@@ -1098,9 +1497,13 @@ def enumerated_cases(ctx, shape):
         key = f"{mode} {len(ranges)}x{w}"
         st = stats.setdefault(key, {"states": 0, "transitions": 0, "schedules": 0, "replayed": 0})
         st["states"] += int(kv["states"]); st["transitions"] += int(kv["edges"]); st["schedules"] += total; st["replayed"] += len(scheds)
-        for sc in scheds:
+        needs_real = any(not persistent(f) for f in faults.values())
+        for k, sc in enumerate(scheds):
+            # the schedules of the model graph are about the interleaving of the threads: one in five runs on the real HTTP stack
+            # (all of them when the fault is one the session's retry policy decides about), the others on the session double
             cases.append({"mode": mode, "file": file, "ranges": ranges, "workers": w, "failing": failing, "faults": faults,
-                          "schedule": sc, "policy": None, "origin": "model graph", "oracle": True})
+                          "schedule": sc, "policy": None, "origin": "model graph", "oracle": True,
+                          "stack": "real" if (needs_real or k % 5 == 0) else "double"})
     ctx.extra["schedule_enumeration"] = stats
     return cases
 
@@ -1128,7 +1531,7 @@ def policy_cases(ctx, k_cfg, k_random, with_unsorted=True):
 
 def run_case(c, schedule=None):
     return RUNNERS[c["mode"]](c["file"], c["ranges"], c["workers"], c["faults"],
-                              schedule=schedule if schedule is not None else c["schedule"], policy=c["policy"])
+                              schedule=schedule if schedule is not None else c["schedule"], policy=c["policy"], stack=c.get("stack"))
 
 
 # ---- successive calls on one source
@@ -1284,8 +1687,13 @@ def count_calls(ctx, res):
 def case_input(c, res):
     return {"strategy": c["mode"], "file_hex": c["file"].hex(), "ranges": [list(r) for r in c["ranges"]], "workers": c["workers"],
             "failing": [list(r) + list(c["faults"][tuple(r)]) for r in c["failing"]],
-            "failing_legend": "[offset, size, status the server answers with (-1: no answer, the session raises), error body kind]",
-            "schedule": res["decisions"], "origin": c["origin"]}
+            "failing_legend": FAULT_LEGEND,
+            "schedule": res["decisions"], "origin": c["origin"], "http_stack": res.get("stack")}
+
+
+FAULT_LEGEND = ("[offset, size, what the server does with the attempts of the request for that range: a status, or -1 = the connection is "
+                "dropped before any response, -2 = it is refused, -4 = the body breaks off; error body kind; optionally k: only the first "
+                "k attempts of a request are answered that way, then the server is healthy]")
 
 
 RULE = ("inputs: a fake file of random non-zero bytes, 1..6 disjoint byte ranges with strictly increasing offsets, some of them EMPTY "
@@ -1306,7 +1714,20 @@ RULE = ("inputs: a fake file of random non-zero bytes, 1..6 disjoint byte ranges
         "task_done / job begun after that moment is a failing input (a worker on its way out - one last non-blocking take that finds "
         "the queue empty - is not). SESSIONS: 2..4 successive calls of a strategy on one source whose ranges share starts with other "
         "lengths / are merged neighbours / subsets / repeats / unrelated, no fault, a persistent one or a transient one (first "
-        "request only): each call is replayed in the model as a run of its own and must equal the local read of ITS ranges. end to end: CopcReader.query over the fake http source vs the local bytes on generated "
+        "request only): each call is replayed in the model as a run of its own and must equal the local read of ITS ranges. "
+        "TRANSPORT: the double is the connection under laspy's requests_retry_session / requests / urllib3 (all of which run): per attempt "
+        "a status + body, connection refused (-2), dropped (-1), body cut (-4); faults on every attempt of a request or on its first k only "
+        "(k = 1..5: masked by the session's retries or not); the attempts of every request and its end are compared with the model of the retry "
+        "policy extracted from requests_retry_session. HISTORIES (what survives a query - module / class / session level state): each in a fresh "
+        "interpreter, 9..90 calls (thorough: up to several hundred) mixing both strategies, direct stream reads, shared / own source, worker "
+        "counts 1..6: (a) every range request of the calls fails by refused / dropped connections / retries exhausted on 502 until > 32 (one "
+        "history > 256; thorough > 4096) sends of the adapter have raised, (b) mixed failures of every kind incl. plain error statuses, cut "
+        "bodies and masked transient ones with healthy calls in between, (c) 40 failing calls of one range each then 40 healthy calls, (d) "
+        "requests without a Range header (none is made by the unchanged source) fail while range requests are served, (e) end to end: "
+        "CopcReader queries whose data requests all fail, a reader whose header cannot be read, then queries on the old and on new readers; "
+        "after the failures: healthy calls (1 and many workers, both strategies, a direct read) - every call must return the local read of ITS "
+        "ranges or raise the error of one of ITS failed requests, no call may block, no thread may be left; each call is also replayed in the "
+        "model as a run of its own. end to end: CopcReader.query over the fake http source vs the local bytes on generated "
         "COPC files (chunks laid out deepest level first / in level order / randomly, with gaps; nodes without points: none / root / "
         "inner / some / all), queries: whole file, levels, boxes, and for empty nodes the query selecting exactly that node; workers "
         "1, 2, 3, 8; both strategies; one failing data request of each kind; deadlock / hang detection by the controller; sessions of 2..4 queries on ONE reader (levels growing / shrinking, deepest level "
@@ -1328,9 +1749,12 @@ def register(ctx, c, res):
     ctx.count(f"ranges:{len(c['ranges'])}")
     ctx.count(f"workers:{c['workers']}")
     ctx.count("failing:" + ("none" if not c["failing"] else ("all" if len(c["failing"]) == len(c["ranges"]) else "some")))
-    for st, body in c["faults"].values():
-        ctx.count(f"fault:{st if st >= 0 else 'no answer'}")
+    for f in c["faults"].values():
+        st, body = f[0], f[1]
+        ctx.count("fault:" + ({-1: "no answer (dropped)", -2: "no answer (refused)", -4: "body cut"}.get(st, str(st))) +
+                  ("" if persistent(f) else f", first {f[2]} attempt(s) only"))
         ctx.count("error body:" + body)
+    ctx.count("http stack:" + res.get("stack", "?"))
     ctx.count(f"empty ranges:{sum(1 for r in c['ranges'] if r[1] == 0)}")
     ctx.count("schedule:" + c["origin"])
     ctx.count("outcome:" + res["outcome"][0] + ("" if res["problem"] is None else "+" + res["problem"][0]))
@@ -1385,21 +1809,104 @@ def register_session(ctx, c, res):
     count_calls(ctx, res)
 
 
+def retry_correspondence(ctx, results, shape):
+    """every request made on the real HTTP stack, seen below laspy's session: the answers its attempts got and how it ended, against
+    the model of the session's retry policy (send_cfg gen_retry): same number of attempts, same end"""
+    pats = {}
+    for inp, res in results:
+        for a in res.get("attempts") or []:
+            pats.setdefault((tuple(a[1]), str(a[2])), (a[0], inp))
+        for a in res.get("attempt_patterns") or []:
+            pats.setdefault((tuple(a[0]), str(a[1])), (a[2], inp))
+    keys = [k for k in pats if k[0]]
+    outs = common.run_model(["retry " + "/".join(str(x) for x in k[0]) for k in keys], name="c16") if keys else []
+    dis = []
+    for k, line in zip(keys, outs):
+        ctx.traces += 1
+        head, kv = parse_kv(line)
+        answers, how = k
+        ctx.count(f"transport: request of {len(answers)} attempt(s) ending in " + ("an exception of the adapter" if how == "raised" else
+                                                                                  ("a broken body" if how == "cut" else "a response")))
+        want = {"exhausted": "raised", "cut": "cut"}.get(kv.get("result"), kv.get("result"))
+        if head != "ok" or int(kv["attempts"]) != len(answers) or want != how:
+            rng, inp = pats[k]
+            if len(dis) < 3:
+                dis.append({"kind": "transport: the attempts of a range request differ from the model of requests_retry_session",
+                            "input": dict(inp() if callable(inp) else inp, request=list(rng), answers_of_the_attempts=list(answers)),
+                            "model": line, "impl": f"attempts={len(answers)} end={how}",
+                            "note": f"model retry policy: total={shape.get('retry_total')} connect={shape.get('retry_connect')} "
+                                    f"read={shape.get('retry_read')} statuses={shape.get('retry_statuses')}"})
+    return dis
+
+
+def history_correspondence(ctx, shape):
+    """the calls of the histories, each replayed in the model as a run of its own (nothing of the calls before it shows)"""
+    del _HISTORIES[:]
+    _HISTORIES.extend(run_histories(ctx))
+    dis, lines, meta = [], [], []
+    for name, h, r, e2e in _HISTORIES:
+        res = r.get("res")
+        if e2e or not res or r.get("bad") or res.get("problem") or not res.get("outcome") or res["outcome"][0] != "session":
+            continue                                        # judged by the oracle
+        for k, (st, out, call) in enumerate(zip(h["steps"], res["outcome"][1], res["calls"])):
+            if st["api"] == "read" or st.get("nonrange"):
+                continue
+            mode = st["api"]
+            faults = {tuple(f[:2]): tuple(f[2:]) for f in st.get("faults") or []}
+            out = tuple(out) if out[0] != "raised" else ("raised", tuple(out[1]))
+            lines.append(model_line(mode, shape, h["file"], [tuple(x) for x in st["ranges"]], st["workers"], faults, call["events"]))
+            meta.append((name, h, res, k, mode, out, call))
+    # what the transport keeps between sends: the model of the source (gen_transport_kept) against the history as it ran - no send
+    # blocked; and, for the record, where the same sends would have blocked a pool of N slots that leaks one per raising send
+    hl, hm = [], []
+    for name, h, r, e2e in _HISTORIES:
+        sends = (r.get("res") or {}).get("sends")
+        if sends:
+            hl += [f"history gen {sends}", f"history slots:32:F {sends}", f"history slots:256:F {sends}"]
+            hm.append((name, h, r, e2e))
+    houts = common.run_model(hl, name="c16") if hl else []
+    for k, (name, h, r, e2e) in enumerate(hm):
+        ctx.traces += 1
+        kv = [parse_kv(x)[1] for x in houts[3 * k: 3 * k + 3]]
+        blocked = bool(r.get("bad")) and "blocks for ever" in r["bad"][0]
+        for e in ctx.extra.get("histories", []):
+            if e["name"] == name:
+                e["a_pool_of_32_slots_leaking_on_raise_would_block_at_send"] = kv[1].get("blocks")
+                e["a_pool_of_256_slots_leaking_on_raise_would_block_at_send"] = kv[2].get("blocks")
+        if (kv[0].get("blocks") != "never") != blocked and len(dis) < 3:
+            dis.append({"kind": "history of calls in one process: a send blocks although the transport keeps nothing between sends (model)",
+                        "input": history_input(name, h, r.get("res"), e2e), "model": houts[3 * k], "impl": str(r.get("bad"))[:300]})
+    outs = common.run_model(lines, name="c16") if lines else []
+    for (name, h, res, k, mode, out, call), line in zip(meta, outs):
+        ctx.traces += 1
+        m = canon_model(mode, line, sum(n for _, n in h["steps"][k]["ranges"]))
+        i = canon_impl_call(mode, out, call)
+        if m != i and len(dis) < 3:
+            dis.append({"kind": "history of calls in one process: " + ("trace of a call not accepted by the model" if m[0].startswith("rejected")
+                                                                      else "outcome of a call differs from the model"),
+                        "input": dict(history_input(name, {"file": h["file"], "steps": h["steps"][:k + 1]}, res), call=k + 1),
+                        "model": m, "impl": i, "trace": call["events"]})
+    return dis
+
+
 def correspond(ctx):
     ctx.extra["rule"] = RULE
     del _RESULTS[:]
     shape = get_shape()
     ctx.extra["source_shape"] = shape
+    dis = history_correspondence(ctx, shape)
     cases = enumerated_cases(ctx, shape) + policy_cases(ctx, ctx.n(6, 40), ctx.n(3, 12))
-    dis = []
     lines = []
-    for c in cases:
-        res = run_case(c)
-        _RESULTS.append((c, res))
-        register(ctx, c, res)
-        lines.append(model_line(c["mode"], shape, c["file"], c["ranges"], c["workers"], c["faults"], res["events"]))
-    dis += session_correspondence(ctx, shape)
-    dis += reader_correspondence(ctx)
+    try:
+        for c in cases:
+            res = run_case(c)
+            _RESULTS.append((c, res))
+            register(ctx, c, res)
+            lines.append(model_line(c["mode"], shape, c["file"], c["ranges"], c["workers"], c["faults"], res["events"]))
+        dis += session_correspondence(ctx, shape)
+        dis += reader_correspondence(ctx)
+    except TooManyHangs:
+        ctx.notes.append(f"correspondence cut short after {len(_RESULTS)} runs: threads of {HANGS} runs are blocked for ever outside the controlled operations")
     outs = common.run_model(lines, name="c16")
     seen = set()
     for (c, res), line in zip(_RESULTS, outs):
@@ -1412,44 +1919,82 @@ def correspond(ctx):
                 continue
             seen.add(kind)
             dis.append({"kind": kind, "input": case_input(c, res), "model": m, "impl": i, "trace": res["events"]})
+    everything = [((lambda c=c, res=res: case_input(c, res)), res) for c, res in _RESULTS]
+    everything += [(session_input(c, res), res) for c, res in _SESSIONS]
+    everything += [(history_input(n, h, r.get("res")), r.get("res") or {}) for n, h, r, e2e in _HISTORIES if not e2e]
+    dis += retry_correspondence(ctx, everything, shape)
     return dis
+
+
+def confirm_alone(ctx, failing):
+    """an input found in this long-lived process is run again ALONE in a fresh interpreter; when it does not show there, what was
+    seen depends on the runs made before it in this process (state the code under test keeps between calls) and is reported so"""
+    out = []
+    for f in failing:
+        try:
+            r = in_fresh_process({"kind": "replay", "input": f["input"], "wait": CHILD_WAIT}, timeout=90)
+        except Exception as ex:  # noqa
+            r = {"crash": repr(ex)}
+        if r.get("crash") or (r.get("bad") and r["bad"][0] == f["kind"]):
+            out.append(f)
+        else:
+            ctx.count("failing input not reproduced alone in a fresh process")
+            out.append(dict(f, kind="only after the earlier runs of this process (state kept between calls): " + f["kind"],
+                            observed=str(f["observed"]) + " [NOT reproduced when this input is run alone in a fresh interpreter: "
+                                     f"{(r.get('bad') or ['the property holds there'])[0]}; {RUNS} runs had been made in the process that showed it]"))
+    return sorted(out, key=lambda f: f["kind"].startswith("only after"))
 
 
 def search(ctx, seeds):
     ctx.extra.setdefault("rule", RULE)
+    # what survives a query: the histories (each in a fresh interpreter) come first - their inputs are self-contained
+    if not _HISTORIES:
+        _HISTORIES.extend(run_histories(ctx))
+    first = history_failures(ctx, _HISTORIES)
     failing = []
     seen = set()
-    results = list(_RESULTS)
-    if not results:
-        # the correspondence did not run (no model): model-independent schedules only
-        for c in policy_cases(ctx, ctx.n(10, 40), ctx.n(6, 12), with_unsorted=False):
-            res = run_case(c)
-            register(ctx, c, res)
-            results.append((c, res))
-    for c, res in results:
-        if not c["oracle"]:
-            continue
-        bad = oracle(c["mode"], c["file"], c["ranges"], c["failing"], res)
-        if bad is None:
-            continue
-        kind, observed = bad
-        if kind in seen:
-            continue
-        seen.add(kind)
-        c2, res2 = shrink(c, res, kind)
-        failing.append({"kind": kind, "input": case_input(c2, res2), "observed": oracle(c2["mode"], c2["file"], c2["ranges"], c2["failing"], res2)[1],
-                        "trace": res2["events"], "expected": expected_text(c2)})
-        if len(failing) >= 5:
-            break
-    if len(failing) < 5:
-        failing += sessions(ctx)
-    if not failing:
-        failing += e2e(ctx)
-    if not failing:
-        failing += e2e_sessions(ctx)
-    if not failing:
-        probe_short_success_body(ctx)
-    return failing
+    try:
+        results = list(_RESULTS)
+        if not results and HANGS < HANG_LIMIT:
+            # the correspondence did not run (no model): model-independent schedules only
+            for c in policy_cases(ctx, ctx.n(10, 40), ctx.n(6, 12), with_unsorted=False):
+                res = run_case(c)
+                register(ctx, c, res)
+                results.append((c, res))
+        for c, res in results:
+            if not c["oracle"]:
+                continue
+            bad = oracle(c["mode"], c["file"], c["ranges"], c["failing"], res)
+            if bad is None:
+                continue
+            kind, observed = bad
+            if kind in seen:
+                continue
+            seen.add(kind)
+            try:
+                c2, res2 = shrink(c, res, kind)
+            except TooManyHangs:
+                c2, res2 = c, res
+            failing.append({"kind": kind, "input": case_input(c2, res2), "observed": oracle(c2["mode"], c2["file"], c2["ranges"], c2["failing"], res2)[1],
+                            "trace": res2["events"], "expected": expected_text(c2)})
+            if len(failing) >= 5:
+                break
+        if len(failing) < 5:
+            failing += sessions(ctx)
+        if not failing and not first:
+            failing += e2e(ctx)
+        if not failing and not first:
+            failing += e2e_sessions(ctx)
+        if not failing and not first:
+            probe_short_success_body(ctx)
+    except TooManyHangs:
+        ctx.notes.append(f"search in this process cut short: threads of {HANGS} runs are blocked for ever outside the controlled operations")
+    if failing:
+        failing = confirm_alone(ctx, failing[:5])
+    # the inputs of one call that show alone come first (they are the smallest), then the histories, then what only showed
+    # after the earlier runs of this process
+    alone = [f for f in failing if not f["kind"].startswith("only after")]
+    return alone[:3] + first + alone[3:] + [f for f in failing if f["kind"].startswith("only after")]
 
 
 def probe_short_success_body(ctx):
@@ -1472,7 +2017,7 @@ def probe_short_success_body(ctx):
 
 
 def expected_text(c):
-    fails_here = [r for r in c["ranges"] if r in set(c["failing"]) and r[1] > 0]
+    fails_here = [r for r in c["ranges"] if r in set(c["failing"]) and r[1] > 0 and persistent(c["faults"].get(tuple(r), (0, 0)))]
     if fails_here:
         return f"the call raises the error of one of the failed requests {fails_here}; every thread it started has finished"
     return f"the call returns {local_read(c['file'], c['ranges']).hex()} (the local read); every thread it started has finished"
@@ -1498,36 +2043,45 @@ def shrink(c, res, kind):
     return best
 
 
+def replay_run(inp):
+    """runs a failing input again (its recorded schedule): (bad or None, result)"""
+    if inp.get("history") == "e2e":
+        res = run_e2e_history(bytes.fromhex(inp["file_hex"]), inp["steps"], schedule=list(inp.get("schedule") or []))
+        return e2e_history_oracle(inp["steps"], res), res
+    if inp.get("history"):
+        h = {"file": bytes.fromhex(inp["file_hex"]), "steps": inp["steps"]}
+        res = run_history(h["file"], h["steps"], schedule=list(inp.get("schedule") or []))
+        return history_oracle(h, res), res
+    if inp.get("strategy") == "e2e":
+        return e2e_replay_run(inp)
+    if inp.get("session"):
+        c = {"mode": inp["strategy"], "file": bytes.fromhex(inp["file_hex"]), "calls": [[tuple(r) for r in rs] for rs in inp["calls"]],
+             "workers": inp["workers"], "faults": {tuple(r[:2]): tuple(r[2:]) for r in inp["failing"]}, "once": bool(inp.get("transient")),
+             "schedule": list(inp["schedule"]), "policy": None}
+        res = run_session_case(c)
+        return session_oracle(c["mode"], c["file"], c["calls"], c["faults"], res, c["once"]), res
+    c = {"mode": inp["strategy"], "file": bytes.fromhex(inp["file_hex"]), "ranges": [tuple(r) for r in inp["ranges"]],
+         "workers": inp["workers"], "failing": tuple(tuple(r[:2]) for r in inp["failing"]),
+         "faults": {tuple(r[:2]): (tuple(r[2:]) if len(r) >= 4 else (500, "empty")) for r in inp["failing"]},
+         "schedule": list(inp["schedule"]), "policy": None, "stack": inp.get("http_stack")}
+    res = run_case(c)
+    return oracle(c["mode"], c["file"], c["ranges"], c["failing"], res), res
+
+
 def replay(ctx, data):
     inp = data.get("failing_input", {}).get("input")
     if not inp:
         print("nothing to replay")
         return 0
-    if inp.get("strategy") == "e2e":
-        return e2e_replay(inp)
-    if inp.get("session"):
-        c = {"mode": inp["strategy"], "file": bytes.fromhex(inp["file_hex"]), "calls": [[tuple(r) for r in rs] for rs in inp["calls"]],
-             "workers": inp["workers"], "faults": {tuple(r[:2]): (r[2], r[3]) for r in inp["failing"]}, "once": bool(inp.get("transient")),
-             "schedule": list(inp["schedule"]), "policy": None}
-        res = run_session_case(c)
-        bad = session_oracle(c["mode"], c["file"], c["calls"], c["faults"], res, c["once"])
-        print("trace:", " ".join(res["events"]))
-        if bad is None:
-            print("not reproduced: outcome", short(res["outcome"]))
-            return 0
-        print("REPRODUCED:", bad[0], "--", bad[1])
-        return 1
-    c = {"mode": inp["strategy"], "file": bytes.fromhex(inp["file_hex"]), "ranges": [tuple(r) for r in inp["ranges"]],
-         "workers": inp["workers"], "failing": tuple(tuple(r[:2]) for r in inp["failing"]),
-         "faults": {tuple(r[:2]): ((r[2], r[3]) if len(r) >= 4 else (500, "empty")) for r in inp["failing"]},
-         "schedule": list(inp["schedule"]), "policy": None}
-    res = run_case(c)
-    bad = oracle(c["mode"], c["file"], c["ranges"], c["failing"], res)
-    print("trace:", " ".join(res["events"]))
+    bad, res = replay_run(inp)
+    print("trace:", " ".join(res["events"][-120:]))
     if bad is None:
-        print("not reproduced: outcome", short(res["outcome"]))
+        print("not reproduced: outcome", str(short(res["outcome"]))[:400])
         return 0
     print("REPRODUCED:", bad[0], "--", bad[1])
+    sys.stdout.flush()
+    if res.get("leaked"):
+        os._exit(1)                       # threads blocked for ever inside the code under test
     return 1
 
 
@@ -2028,27 +2582,478 @@ LAYOUTS_S = ["level order", "deepest level first", "random", "level order", "dee
 EMPTIES_S = ["none", "none", "some", "inner", "none", "root"]
 
 
-def e2e_replay(inp):
+def e2e_replay_run(inp):
+    raw = bytes.fromhex(inp["file_hex"])
     if "queries" in inp:
-        raw = bytes.fromhex(inp["file_hex"])
         locals_, res = e2e_session_run(raw, inp["queries"], inp["http_strategy"], inp["workers"], inp.get("faults") or {},
                                        once=bool(inp.get("transient")), schedule=list(inp["schedule"]))
-        bad = e2e_session_oracle(inp["queries"], locals_, res)
-        print("trace:", " ".join(res["events"][-60:]))
-        if bad is None:
-            print("not reproduced")
-            return 0
-        print("REPRODUCED:", bad[0], "--", bad[1])
-        return 1
-    raw = bytes.fromhex(inp["file_hex"])
+        return e2e_session_oracle(inp["queries"], locals_, res), res
     faults = inp.get("faults")
     if faults is None:
         faults = {s: (500, "empty") for s in inp.get("fail_starts", [])}
     local, res, failed = e2e_run(raw, inp["query"], inp["http_strategy"], inp["workers"], faults, schedule=list(inp["schedule"]))
-    bad = e2e_oracle(local, res, failed)
-    print("trace:", " ".join(res["events"][-60:]))
+    return e2e_oracle(local, res, failed), res
+
+
+# ------------------------------------------------------------------------------------------------ histories: what survives a query
+# A HISTORY is a long sequence of calls made in ONE process - either strategy, direct reads through a stream, queries of
+# CopcReader; one source object kept or a new one per call; any worker counts - many of which fail at the transport level (below
+# laspy's session: connections refused / dropped, retries exhausted on 500 / 502 / 504, bodies cut, error statuses), each of which
+# must be reported correctly, followed by calls against a healthy server, which must return the local read and leave no thread
+# behind.  Whatever laspy keeps between calls - module level, class level, session level - is what such a history exercises.
+# Every history runs in a fresh interpreter (module-level state of the code under test starts from scratch, a thread blocked for
+# ever cannot keep the check from finishing), on the real HTTP stack, under the controller.
+URL = "http://fake/file.copc.laz"
+CHILD_WAIT = 5.0
+_HISTORIES = []      # (history, result) of every history run by correspond(), re-judged by search()
+
+
+def fault_list(faults):
+    return [list(k if isinstance(k, tuple) else (k,)) + list(v) for k, v in faults.items()]
+
+
+def run_history(file, steps, schedule=None, policy=None):
+    """steps: [{"api": "queue" | "exec" | "read", "ranges": [[o, n], ..], "workers": w, "faults": [[o, n, status, body(, k)], ..],
+    "source": "shared" | "own", "nonrange": [status, body] | None}]; outcome = ('session', [outcome of each call])"""
+    world = World(file, {}, stack="real")
+    first = steps[0]["api"] if steps else "queue"
+
+    def fn(p):
+        ctl = p.ctl
+        shared = p.stream_cls(URL)
+        outs = []
+        for st in steps:
+            mode = "exec" if st["api"] == "exec" else "queue"
+            with ctl.cv:
+                ctl.mode, ctl.seek_yields = mode, mode == "exec"
+            with world.lock:
+                world.faults = {tuple(f[:2]): tuple(f[2:]) for f in st.get("faults") or []}
+                world.nonrange = tuple(st["nonrange"]) if st.get("nonrange") else None
+            ranges = [tuple(r) for r in st["ranges"]]
+
+            def one(st=st, ranges=ranges):
+                src = shared if st.get("source", "shared") == "shared" else p.stream_cls(URL)
+                if st["api"] == "read":                # what CopcReader does for the header and the hierarchy pages
+                    out = bytearray()
+                    for o, n in ranges:
+                        src.seek(o)
+                        out += src.read(n)
+                    return bytes(out)
+                out = bytearray(sum(n for _, n in ranges))
+                getattr(p.copc, STRATEGY_FN[st["api"]])(src, list(ranges), out, st["workers"])
+                return bytes(out)
+            outs.append(p.observed(one))
+        return outs
+    return controlled_call("exec" if first == "exec" else "queue", world, fn, schedule, policy, seek_yields=(first == "exec"), session=True)
+
+
+def describe_step(st):
+    fl = st.get("faults") or []
+    if st.get("nonrange"):
+        return (f"{st['api']} {len(st['ranges'])} range(s) x {st.get('workers', 1)} worker(s), {st.get('source', 'shared')} source, range requests "
+                f"served, every other request answered with {st['nonrange'][0]}")
+    what = "healthy server" if not fl else f"{len(fl)} of {len(st['ranges'])} ranges faulty {sorted({str(f[2]) + ('x' + str(f[4]) if len(f) > 4 else '') for f in fl})}"
+    return f"{st['api']} {len(st['ranges'])} range(s) x {st.get('workers', 1)} worker(s), {st.get('source', 'shared')} source, {what}"
+
+
+def history_oracle(h, res):
+    """every call of the history: the local read of ITS ranges, or the error of a request that failed during it; when it is over
+    nothing it started is left; no call blocks"""
+    steps = h["steps"]
+    kind0 = "history of calls in one process: "
+    done = len(res["calls"])
+    failed_before = sum(len(c["failed"]) for c in res["calls"])
+    raised_before = sum(1 for a in res.get("attempts", []) if a[2] == "raised")
+    failed_before = max(failed_before, len(res.get("failed") or []))
+    if res["problem"] is not None and done < len(steps):
+        what, who = res["problem"]
+        st = steps[done]
+        return (kind0 + ("a later call blocks for ever" if what == "hang" else "deadlock") + (" on a healthy server" if not st.get("faults") and not st.get("nonrange") else ""),
+                f"call #{done + 1} of {len(steps)} ({describe_step(st)}) never returned: {what}, threads (id, state, next operation) {who}; "
+                f"the {done} calls before it were each reported correctly; up to this moment {failed_before} range requests of the history "
+                f"had failed below the session, {raised_before} of them by an exception raised by the adapter's send")
+    bad = thread_problems(kind0, res)
+    if bad is not None:
+        return bad
+    if res["outcome"][0] != "session" or len(res["outcome"][1]) != len(steps) or done != len(steps):
+        return kind0 + "the history did not run to its end", str(short(res["outcome"]))[:300]
+    for k, (st, out, c) in enumerate(zip(steps, res["outcome"][1], res["calls"])):
+        ranges = [tuple(r) for r in st["ranges"]]
+        failed = [tuple(r) for r in c["failed"]]
+        nth = f"call #{k + 1} of {len(steps)} ({describe_step(st)}), after {sum(len(x['failed']) for x in res['calls'][:k])} failed requests in earlier calls"
+        must = [tuple(f[:2]) for f in st.get("faults") or [] if len(f) < 5 and f[1] > 0 and tuple(f[:2]) in ranges]
+        if st["api"] == "read" and must:
+            must = must[:1] if must[0] == [r for r in ranges if r in must][0] else must      # a sequential read stops at its first failure
+        if must and out[0] == "returned":
+            return kind0 + "failed request swallowed, data returned", f"{nth}: failing {must[:6]} returned {out[1].hex()[:80]}"
+        if failed and all(f == NONRANGE for f in failed) and out[0] == "returned":
+            failed = []          # a request that is not a range request failed and the call went on without it: the data decide
+        if not failed:
+            want = local_read(h["file"], ranges)
+            if out[0] != "returned":
+                return kind0 + "exception although no request failed", f"{nth}: {short(out)}"
+            if out[1] != want:
+                return kind0 + "bytes differ from the local read", f"{nth}: got {out[1].hex()[:120]} want {want.hex()[:120]}"
+        else:
+            if out[0] == "returned":
+                return kind0 + "failed request swallowed, data returned", f"{nth}: failed {failed[:6]} returned {out[1].hex()[:80]}"
+            if out[0] != "raised" or tuple(out[1]) not in failed:
+                return kind0 + "failed request surfaced as something else", f"{nth}: {short(out)}"
+    return None
+
+
+# ---- end to end histories: CopcReader over the http source
+def run_e2e_history(raw, steps, schedule=None, policy=None):
+    """steps: [{"reader": id, "strategy": "queue" | "executor", "workers": w, "q": query, "faults": [[start, status, body(, k)], ..]}]:
+    a step opens reader `id` (a new HttpRangeStream + CopcReader) unless an earlier step opened it successfully, then queries it"""
+    e2e_backend()
+    world = World(raw, {}, by_start=True, stack="real")
+    first = steps[0]["strategy"] if steps else "queue"
+
+    def fn(p):
+        ctl = p.ctl
+        readers = {}
+        outs = []
+        for st in steps:
+            mode = "queue" if st["strategy"] == "queue" else "exec"
+            with ctl.cv:
+                ctl.mode, ctl.seek_yields = mode, mode == "exec"
+            with world.lock:
+                world.faults = {int(f[0]): tuple(f[1:]) for f in st.get("faults") or []}
+
+            def one(st=st):
+                rd = readers.get(st["reader"])
+                if rd is None:
+                    rd = p.copc.CopcReader(p.stream_cls(URL), http_num_threads=st["workers"], _http_strategy=st["strategy"])
+                    readers[st["reader"]] = rd
+                return e2e_query(p.copc, rd, st["q"])
+            outs.append(p.observed(one))
+        return outs
+    mode0 = "queue" if first == "queue" else "exec"
+    res = controlled_call(mode0, world, fn, schedule, policy, seek_yields=(mode0 == "exec"), session=True)
+    res["locals"] = [e2e_local_cached(raw, st["q"]) for st in steps]
+    return res
+
+
+def e2e_history_oracle(steps, res):
+    done = len(res["calls"])
+    if res["problem"] is not None and done < len(steps):
+        what, who = res["problem"]
+        st = steps[done]
+        return ("history of queries in one process (e2e): a later query blocks for ever" + (" on a healthy server" if not st.get("faults") else ""),
+                f"query #{done + 1} of {len(steps)} ({st['strategy']}, {st['workers']} worker(s), reader {st['reader']}, {st['q']}, "
+                f"faulty request starts {[f[0] for f in st.get('faults') or []]}) never returned: {what}, threads {who}; "
+                f"{sum(len(c['failed']) for c in res['calls'])} range requests had failed in the {done} queries before it, each reported correctly")
+    bad = e2e_session_oracle([st["q"] for st in steps], res["locals"], res)
     if bad is None:
-        print("not reproduced")
-        return 0
-    print("REPRODUCED:", bad[0], "--", bad[1])
-    return 1
+        return None
+    return bad[0].replace("e2e, successive queries on one reader: ", "history of queries in one process (e2e): "), bad[1]
+
+
+# ---- generation
+def _raising(rng, k):
+    return RAISING[k % len(RAISING)]
+
+
+def history_cases(ctx):
+    """[(name, history)] - strategy level; target = the number of requests that must have failed by an exception of the adapter's
+    send before the healthy calls (quick: > 32 in every history of failures, one of > 256; thorough: > 512, one of > 4096)"""
+    rng = ctx.rng
+    size = 96
+    out = []
+
+    def healthy_tail(file, again=None):
+        rs = make_ranges(rng, 5, size, True, "none")
+        # the very ranges that failed last, now that the server is healthy (something remembered per failed range?)
+        pre = [] if not again else [{"api": again["api"], "ranges": again["ranges"], "workers": again.get("workers", 1), "faults": [],
+                                     "source": again.get("source", "shared")}]
+        return pre + [{"api": "queue", "ranges": rs[:1], "workers": 1, "faults": [], "source": "own"},
+                {"api": "exec", "ranges": rs[:2], "workers": 1, "faults": [], "source": "shared"},
+                {"api": "read", "ranges": rs[:2], "workers": 1, "faults": [], "source": "own"},
+                {"api": "queue", "ranges": rs, "workers": 5, "faults": [], "source": "shared"},
+                {"api": "exec", "ranges": rs, "workers": 3, "faults": [], "source": "own"}]
+
+    def failing_block(target, faults_of, nranges, workers, source, apis=("queue", "exec")):
+        steps, n = [], 0
+        while n < target:
+            rs = make_ranges(rng, nranges, size, True, "none")
+            fl = faults_of(rs, len(steps))
+            steps.append({"api": apis[len(steps) % len(apis)], "ranges": rs, "workers": workers if isinstance(workers, int) else rng.choice(workers),
+                          "faults": fl, "source": source if source != "mixed" else rng.choice(["shared", "own"])})
+            n += sum(1 for f in fl if len(f) < 5 and tuple(f[2:4]) in RAISING or (len(f) < 5 and f[2] in (-1, -2, 500, 502, 504)))
+            if len(steps) > 4000:
+                break
+        return steps
+
+    t_small, t_big = ctx.n(40, 520), ctx.n(264, 4200)
+    for name, fault in [("connections dropped", (-1, "none")), ("connections refused", (-2, "none")),
+                        ("retries exhausted on 502", (502, "empty"))]:
+        file = make_file(rng, size)
+        target = t_big if name.startswith("retries") else t_small
+        steps = failing_block(target, lambda rs, k, fault=fault: [list(r) + list(fault) for r in rs], 6, [6, 2, 3], "mixed")
+        out.append((f"{name}: every range request of {len(steps)} calls fails, then healthy calls", {"file": file, "steps": steps + healthy_tail(file, steps[-1])}))
+    # every kind of failure, some ranges of a call healthy, healthy calls in between
+    file = make_file(rng, size)
+    steps = []
+    cyc = FaultCycle()
+    for blk in range(ctx.n(4, 24)):
+        steps += failing_block(12, lambda rs, k: [list(r) + list(cyc.next() if rng.random() < 0.5 else _raising(rng, k + len(r)))
+                                                  for r in rs if rng.random() < 0.8] or [list(rs[0]) + [-1, "none"]],
+                               rng.randrange(2, 6), [1, 2, 4], "mixed", apis=("queue", "exec", "read") if blk % 2 else ("exec", "queue"))
+        steps += healthy_tail(file)[blk % 3: blk % 3 + 2]
+    out.append((f"mixed failures ({len(steps)} calls: every status, dropped / refused / cut, transient ones, direct reads), healthy calls in between",
+                {"file": file, "steps": steps + healthy_tail(file, next(st for st in reversed(steps) if st["faults"]))}))
+    # many failing queries of one range each (something kept per failed QUERY), then many healthy ones (something kept per request)
+    file = make_file(rng, size)
+    steps = failing_block(ctx.n(40, 300), lambda rs, k: [list(rs[0]) + list(_raising(rng, k))], 1, 1, "mixed")
+    many = [{"api": ("queue", "exec")[k % 2], "ranges": make_ranges(rng, 1 + k % 3, size, True, "none"), "workers": 1 + k % 2, "faults": [],
+             "source": ("shared", "own")[k % 2]} for k in range(ctx.n(40, 300))]
+    out.append((f"{len(steps)} failing calls of one range each, then {len(many)} healthy calls", {"file": file, "steps": steps + [dict(steps[-1], faults=[])] + many + healthy_tail(file, steps[0])}))
+    # requests without a Range header (none is made by the unchanged source) fail while they last
+    file = make_file(rng, size)
+    rs = make_ranges(rng, 4, size, True, "none")
+    steps = []
+    for k, nr in enumerate([(-1, "none"), (503, "empty"), (404, "empty"), (-2, "none"), (502, "empty"), (-1, "none")] * ctx.n(1, 4)):
+        steps.append({"api": ("queue", "exec", "read")[k % 3], "ranges": rs[: 1 + k % 4], "workers": 1 + k % 3, "faults": [],
+                      "source": ("shared", "own")[(k // 2) % 2], "nonrange": list(nr)})
+    out.append(("requests other than range requests (HEAD, plain GET - if any is made) fail, range requests are served", {"file": file, "steps": steps + healthy_tail(file)}))
+    return out
+
+
+def policy_from_spec(spec):
+    if not spec:
+        return None
+    rng = random.Random(spec.get("seed", 0))
+    name = spec.get("name")
+    if name in ADVERSARIAL:
+        return make_policy(ADVERSARIAL[name][0], ADVERSARIAL[name][1], 0.0, rng)
+    prio = LABELS[:]
+    rng.shuffle(prio)
+    return make_policy(prio, rng.choice(["low", "high"]), rng.choice([0.0, 0.3, 1.0]), rng)
+
+
+# ---- the fresh interpreter
+def jsonable(x):
+    if isinstance(x, (bytes, bytearray)):
+        return {"hex": bytes(x).hex()}
+    if isinstance(x, (list, tuple)):
+        return [jsonable(v) for v in x]
+    if isinstance(x, dict):
+        return {str(k): jsonable(v) for k, v in x.items()}
+    return x
+
+
+def unjson(x):
+    if isinstance(x, dict) and set(x) == {"hex"}:
+        return bytes.fromhex(x["hex"])
+    if isinstance(x, list):
+        return [unjson(v) for v in x]
+    if isinstance(x, dict):
+        return {k: unjson(v) for k, v in x.items()}
+    return x
+
+
+def run_job(job):
+    kind = job["kind"]
+    pol = policy_from_spec(job.get("policy"))
+    sched = job.get("schedule")
+    if kind == "history":
+        h = {"file": bytes.fromhex(job["file_hex"]), "steps": job["steps"]}
+        res = run_history(h["file"], h["steps"], schedule=sched, policy=pol)
+        bad = history_oracle(h, res)
+    elif kind == "e2e_history":
+        res = run_e2e_history(bytes.fromhex(job["file_hex"]), job["steps"], schedule=sched, policy=pol)
+        bad = e2e_history_oracle(job["steps"], res)
+    else:                                            # an input found in the long-lived process, run alone
+        bad, res = replay_run(job["input"])
+    keep = {k: res.get(k) for k in ("outcome", "problem", "leaked", "decisions", "failed", "stack", "other_requests", "errors")}
+    keep["calls"] = res.get("calls")
+    keep["events_tail"] = res["events"][-120:]
+    keep["n_requests"] = len(res.get("requests") or [])
+    pats = {}
+    for a in res.get("attempts") or []:
+        pats.setdefault((tuple(a[1]), str(a[2])), list(a[0]))
+    keep["attempt_patterns"] = [[list(k[0]), k[1], v] for k, v in pats.items()]
+    keep["raised_sends"] = sum(1 for a in res.get("attempts") or [] if a[2] == "raised")
+    keep["sends"] = "".join("T" if a[2] == "raised" else "F" for a in res.get("attempts") or [] if a[2] is not None)
+    return {"bad": list(bad) if bad else None, "res": jsonable(keep)}
+
+
+def child_main():
+    global WAIT, RUN_LIMIT, HANG_LIMIT, JOIN_LIMIT
+    job = json.load(sys.stdin)
+    JOIN_LIMIT = 0.5
+    WAIT = float(job.get("wait", CHILD_WAIT))
+    RUN_LIMIT = float(job.get("limit", 900.0))
+    try:
+        out = run_job(job)
+    except BaseException as ex:  # noqa
+        import traceback
+        out = {"crash": traceback.format_exc()[-1500:], "bad": None, "res": None}
+    sys.stdout.write("\nC16-CHILD-RESULT " + json.dumps(out) + "\n")
+    sys.stdout.flush()
+    os._exit(0)
+
+
+def in_fresh_process(job, timeout=240.0):
+    """runs the job in a new interpreter; {"bad": [kind, observed] | None, "res": ...}"""
+    env = dict(os.environ, PYTHONPATH=common.VERIF + os.pathsep + common.REPO, PYTHONHASHSEED="0")
+    t0 = time.time()
+    try:
+        p = subprocess.run([sys.executable, "-c", "from harness.props import c16; c16.child_main()"], input=json.dumps(job),
+                           stdout=subprocess.PIPE, stderr=subprocess.PIPE, text=True, timeout=timeout, env=env, cwd=common.VERIF)
+    except subprocess.TimeoutExpired:
+        return {"bad": ["history of calls in one process: the interpreter running it had to be killed",
+                        f"no result after {timeout:.0f} s"], "res": None, "seconds": time.time() - t0}
+    for line in p.stdout.split("\n"):
+        if line.startswith("C16-CHILD-RESULT "):
+            out = json.loads(line[len("C16-CHILD-RESULT "):])
+            out["res"] = unjson(out.get("res"))
+            out["seconds"] = time.time() - t0
+            return out
+    return {"crash": (p.stderr or p.stdout)[-1500:], "bad": None, "res": None, "seconds": time.time() - t0}
+
+
+def history_input(name, h, res, e2e=False):
+    return {"history": "e2e" if e2e else "strategies", "name": name, "file_hex": h["file"].hex(), "steps": h["steps"],
+            "steps_legend": ("one call per step, all in one process, in this order; faults: " + FAULT_LEGEND) if not e2e else
+                            "one query per step (a step opens its reader unless an earlier step did); faults: [start offset of the request, status | -1 dropped | -2 refused | -4 body cut, error body kind(, first k attempts only)]",
+            "schedule": (res or {}).get("decisions") or []}
+
+
+def shrink_history(name, h, bad, e2e=False):
+    """a shorter history with the same class of failure: cut after the call that shows it, then drop leading calls"""
+    kind = bad[0]
+    job0 = {"kind": "e2e_history" if e2e else "history", "file_hex": h["file"].hex(), "policy": {"seed": 1}, "wait": CHILD_WAIT}
+    best = None
+    steps = h["steps"]
+    tries = 0
+    lo = 0
+    # drop leading calls by halves while the failure stays
+    while tries < 5 and len(steps) - lo > 2:
+        cut = lo + (len(steps) - lo) // 2
+        r = in_fresh_process(dict(job0, steps=steps[cut:]), timeout=120)
+        tries += 1
+        if r.get("bad") and r["bad"][0] == kind:
+            lo = cut
+            best = (steps[cut:], r)
+        else:
+            break
+    if best is None:
+        return h, None
+    h2 = {"file": h["file"], "steps": best[0]}
+    done = len((best[1]["res"] or {}).get("calls") or [])
+    if done + 1 < len(h2["steps"]):
+        h2 = {"file": h["file"], "steps": h2["steps"][:done + 1]}
+    return h2, best[1]
+
+
+def history_failures(ctx, runs):
+    """failing inputs among the histories (runs: [(name, history, child result, e2e?)])"""
+    found = []
+    for name, h, r, e2e in runs:
+        bad = r.get("bad")
+        if r.get("crash") and not bad:
+            ctx.notes.append(f"history '{name}' could not be run: {r['crash'][-400:]}")
+            continue
+        if not bad or any(f["kind"] == bad[0] for f in found):
+            continue
+        res = r.get("res") or {}
+        done = len(res.get("calls") or [])
+        h_cut = {"file": h["file"], "steps": h["steps"][:done + 1]} if done + 1 < len(h["steps"]) else h
+        h2, r2 = shrink_history(name, h_cut, bad, e2e) if len(found) < 2 else (h_cut, None)
+        res2 = (r2 or {}).get("res") or res
+        bad2 = (r2 or {}).get("bad") or bad
+        found.append({"kind": bad[0], "input": history_input(name, h2, res2, e2e), "observed": bad2[1],
+                      "trace": (res2.get("events_tail") or [])[-80:],
+                      "expected": "every call of the history returns the local read of its own ranges or raises the error of a request that "
+                                  "failed during it, whatever happened in the calls before; when it is over the threads it started have "
+                                  "finished; in particular a call on a healthy server returns after any number of failed calls"})
+    return found
+
+
+def run_histories(ctx):
+    """runs every history in its own interpreter: [(name, history, child result, e2e?)]"""
+    runs = []
+    t0 = time.time()
+    jobs = []
+    for k, (name, h) in enumerate(history_cases(ctx)):
+        jobs.append((name, h, False, {"kind": "history", "file_hex": h["file"].hex(), "steps": h["steps"],
+                                      "policy": {"seed": ctx.seed * 1000 + k}, "wait": CHILD_WAIT}))
+    for k, (name, h) in enumerate(e2e_history_cases(ctx)):
+        jobs.append((name, h, True, {"kind": "e2e_history", "file_hex": h["file"].hex(), "steps": h["steps"],
+                                     "policy": {"seed": ctx.seed * 1000 + 500 + k}, "wait": CHILD_WAIT}))
+    from concurrent.futures import ThreadPoolExecutor as _TPE
+    with _TPE(max_workers=4) as pool:                       # the interpreters are independent of each other
+        results = list(pool.map(lambda j: in_fresh_process(j[3], timeout=ctx.n(150, 1200)), jobs))
+    for (name, h, e2e, _job), r in zip(jobs, results):
+        runs.append((name, h, r, e2e))
+        register_history(ctx, name, h, r, e2e=e2e)
+    ctx.extra["histories"] = [{"name": n, "calls": len(h["steps"]), "seconds": round(r.get("seconds", 0), 1),
+                               "range_requests": (r.get("res") or {}).get("n_requests"),
+                               "failed_below_the_session": len((r.get("res") or {}).get("failed") or []),
+                               "adapter_send_raised": (r.get("res") or {}).get("raised_sends"),
+                               "requests_without_range": (r.get("res") or {}).get("other_requests"),
+                               "verdict": (r.get("bad") or ["ok"])[0]} for n, h, r, _ in runs]
+    ctx.extra["histories_seconds"] = round(time.time() - t0, 1)
+    return runs
+
+
+def register_history(ctx, name, h, r, e2e=False):
+    res = r.get("res") or {}
+    ctx.case(("history", e2e, name, len(h["steps"]), tuple(res.get("decisions") or [])[:2000]), nontrivial=len(h["steps"]) >= 2)
+    ctx.count("history:" + ("e2e" if e2e else "strategies"))
+    ctx.count("history:calls", len(h["steps"]))
+    ctx.count("history:requests that failed below the session", len(res.get("failed") or []))
+    ctx.count("history:adapter send raised", res.get("raised_sends") or 0)
+    for st in h["steps"]:
+        if not e2e:
+            ctx.count("history:call:" + st["api"] + (":healthy" if not st.get("faults") and not st.get("nonrange") else ":faulty"))
+            ctx.count("history:source:" + st.get("source", "shared"))
+
+
+def e2e_history_cases(ctx):
+    """CopcReader level: whole-file / level / box queries on readers over the http source; the data requests of many queries
+    fail (all of them, every raising kind), reader construction fails (the header read), then healthy queries on old and new readers"""
+    try:
+        from harness import fake_lazrs  # noqa
+    except Exception:
+        return []
+    rng = ctx.rng
+    out = []
+    for hi in range(ctx.n(2, 5)):
+        raw, nodes = build_copc(rng, "deepest level first, gaps" if hi % 2 == 0 else "random", "none")
+        copc = e2e_backend()
+        offs = sorted(nd["offset"] for nd in nodes if nd["n"])
+        whole = {"level": None, "bounds": None}
+        src = LogBytesIO(raw)
+        rd = copc.CopcReader(src)
+        del src.log[:]
+        e2e_query(copc, rd, whole)
+        starts = [o for o, n in src.log if n > 0]
+        per_query = max(1, len(starts))
+        target = ctx.n(40, 400) if hi % 2 == 0 else ctx.n(34, 150)
+        steps = []
+        k = 0
+        fault = RAISING[hi % len(RAISING)]
+        # one reader opened while the server is healthy, kept through the outage
+        steps.append({"reader": 0, "strategy": ("queue", "executor")[hi % 2], "workers": 3, "q": {"level": 0, "bounds": None}, "faults": []})
+        n_failed = 0
+        while n_failed < target:
+            strategy = ("queue", "executor")[k % 2]
+            f = fault if hi % 2 == 0 else RAISING[k % len(RAISING)]
+            steps.append({"reader": 0 if k % 3 == 0 and steps[0]["strategy"] == strategy else 100 + k, "strategy": strategy,
+                          "workers": rng.choice([1, 2, 8]) if not (k % 3 == 0 and steps[0]["strategy"] == strategy) else 3,
+                          "q": whole, "faults": [[s] + list(f) for s in starts]})
+            n_failed += per_query
+            k += 1
+        # the header cannot be read: reader construction fails
+        steps.append({"reader": 900, "strategy": "queue", "workers": 2, "q": whole, "faults": [[0] + list(fault)]})
+        for k2, (strategy, workers, q) in enumerate([("queue", 1, {"level": 0, "bounds": None}), ("executor", 1, whole), ("queue", 8, whole),
+                                                     ("executor", 3, {"level": [1, 3], "bounds": None}), ("queue", 3, whole)]):
+            steps.append({"reader": 1000 + k2, "strategy": strategy, "workers": workers, "q": q, "faults": []})
+        # the reader that was opened before the outage and went through it
+        steps.append({"reader": 0, "strategy": steps[0]["strategy"], "workers": 3, "q": whole, "faults": []})
+        out.append((f"e2e: {k} queries whose {per_query} data requests all fail ({'one kind' if hi % 2 == 0 else 'every raising kind'}), "
+                    "a reader that cannot be opened, then healthy queries on the old and on new readers", {"file": raw, "steps": steps}))
+    return out
